@@ -580,6 +580,18 @@ func (x *Exec) binop(fr *Frame, st *State, ins ssa.Instruction, op token.Token, 
 		}
 		return VInt{r}
 	}
+	// 64-bit unsigned add/sub of in-range operands wrap at most once: a conditional is easier on the solvers than mod 2^64
+	if unsignedOp && bitsOf(opT) == 64 {
+		m := c.Pow2(64)
+		switch op {
+		case token.ADD:
+			r := c.Add(ai.T, bi.T)
+			return VInt{c.Ite(c.Ge(r, m), c.Sub(r, m), r)}
+		case token.SUB:
+			r := c.Sub(ai.T, bi.T)
+			return VInt{c.Ite(c.Lt(r, c.Int(0)), c.Add(r, m), r)}
+		}
+	}
 	switch op {
 	case token.ADD:
 		return arith(c.Add(ai.T, bi.T))
